@@ -65,3 +65,14 @@ Definition mism_l_vtf := Eval vm_compute in
   failing (fun c : lcase => let '(T, ins, outs, oh, uxc, uxh, vcs, vhs, fe, vf, burn, vtf) := c in
     res_e_matches (FeeTxn.VerifyTransactionFee (map snd outs) vf burn) vtf) cases_loops.
 Print mism_l_vtf.
+
+(* coin.Transactions.TruncateBytesTo (Gen/CoinTruncate.v): the list is what Size()
+   returned for each transaction; observable = number of transactions kept, error *)
+Definition mism_l_trunc := Eval vm_compute in
+  failing (fun c : list (Z * error) * Z * res (Z * error) => let '(l, size, o) := c in
+    match Transactions_TruncateBytesTo l size, o with
+    | Panic, Panic => true
+    | Val (kept, e), Val (n, e') => (Z.of_nat (List.length kept) =? n) && err_matches e e'
+    | _, _ => false
+    end) cases_trunc.
+Print mism_l_trunc.
